@@ -110,7 +110,8 @@ def gen_targets(cs, quick):
             for ans in answers_for(n, True):
                 cs.add(pre + n, [up_ok(), ans], 'targets', targets=(act, [n], [ans]))
         # two names: all codes x all codes
-        for n1, n2 in [('a', 'b'), ('a', 'g:*'), ('g:*', 'b'), ('g:p', 'h:*')]:
+        for n1, n2 in ([('a', 'b'), ('g:*', 'b'), ('g:p', 'h:*')] if quick else
+                       [('a', 'b'), ('a', 'g:*'), ('g:*', 'b'), ('g:p', 'h:*')]):
             full1 = full2 = True
             if ':*' in n1 + n2 and act != 'clear':
                 # group answers are many: full on the group side x reduced on the other
@@ -656,11 +657,15 @@ def judge_names(chk, c, r, served, lines, meta, F):
     act, names = words[0], words[1:]
     if act == 'pid' and 'all' in names:
         return 0
-    used = served[:len(r['served'])]
+    used = list(served)      # the whole script: one answer per name, whether or not it was asked for
+    first_calls = 0
     if act == 'pid':
         if not used or used[0] != up_ok():
             return 0
         used = used[1:]
+        first_calls = 1
+    if len(used) < len(names) or any(e[0] in ('sock', 'proto') for e in used[:len(names)]):
+        return 0
     exp, status, aborted = [], 0, False
     for n, e in zip(names, used):
         if e[0] in ('sock', 'proto'):
@@ -704,9 +709,10 @@ def judge_names(chk, c, r, served, lines, meta, F):
                               'line and a non-zero status' % act, expected_lines=exp))
             return 0
         return 1 if len(exp) + 1 < len(names) else 0
-    if texts != exp or len(texts) != len(lines) or r['status'] != status:
-        _direct(chk, dict(meta, kind='%s: not one line per name worded after the server\'s answer for that name, or '
-                          'wrong exit status' % act, expected_lines=exp, expected_status=status))
+    if texts != exp or len(texts) != len(lines) or r['status'] != status or len(r['calls']) != first_calls + len(names):
+        _direct(chk, dict(meta, kind='%s: every name must be sent to the server and get one line worded after the '
+                          'server\'s answer for that name; or wrong exit status' % act, expected_lines=exp,
+                          expected_status=status, expected_number_of_calls=first_calls + len(names)))
     return 0
 
 
@@ -944,7 +950,55 @@ def judge_main(chk):
             _direct(chk, {'kind': 'interactive mode: the shell does not print what onecmd prints for the same commands, or '
                                   'does not exit with status 0', 'line': typed, 'script': script,
                           'printed': out.msgs, 'exit_code': code, 'expected': a['msgs'] + b['msgs'] + ['\n']})
+    n += judge_plugins(chk, pairs)
     chk._c20_main = (main_terms, main_metas)
+    return n
+
+
+def judge_plugins(chk, pairs):
+    """A client configuration with one and with two extra [ctlplugin:*] sections (real ClientOptions
+    realized from a temporary file; factories in harness/c20_plugins.py): built-in actions behave exactly
+    as without plugins - also one that a later plugin defines too -, the plugins' own commands are found,
+    and a command defined by two plugins resolves to the FIRST plugin in configuration order."""
+    import c20_proxy as H
+    n = 0
+    with vlib.WorkDir('c20cfg') as wd:
+        for k in (1, 2):
+            cfg = H.plugin_config(wd, k)
+            for line, script in pairs:
+                a = H.run_real(line, script)
+                for mode in ('onecmd', 'main'):
+                    if mode == 'onecmd':
+                        b = H.run_real_configured(line, script, cfg)
+                        same = b['msgs'] == a['msgs'] and b['status'] == a['status'] and b['calls'] == a['calls']
+                    else:
+                        b = H.run_main(line.split(), script, config_path=cfg)
+                        same = b['msgs'] == a['msgs'] and b['exit_code'] == a['status'] and b['calls'] == a['calls']
+                    n += 1
+                    chk.dist('family:plugins-%d' % k)
+                    if not same or b['escaped'] is not None:
+                        _direct(chk, {'kind': 'with %d extra ctlplugin section(s) in the client configuration a built-in '
+                                              'action no longer behaves as without plugins (%s)' % (k, mode),
+                                      'line': line, 'script': script, 'config': open(cfg).read(),
+                                      'without_plugins': {'printed': a['msgs'], 'exitstatus': a['status'], 'calls': a['calls']},
+                                      'with_plugins': {k2: b.get(k2) for k2 in ('msgs', 'status', 'exit_code', 'calls', 'escaped')}})
+            expect = [('xcmd foo bar', ['x:xcmd foo bar\n'], 0), ('shared z', ['x:shared z\n'], 0)]
+            if k == 2:
+                expect += [('ycmd', ['y:ycmd \n'], 3)]
+            else:
+                expect += [('ycmd', ['*** Unknown syntax: ycmd\n'], 1)]
+            for line, msgs, status in expect:
+                b = H.run_real_configured(line, [], cfg)
+                m = H.run_main(line.split(), [], config_path=cfg)
+                n += 1
+                chk.dist('family:plugins-%d' % k)
+                if b['msgs'] != msgs or b['status'] != status or b['calls'] or m['msgs'] != msgs or m['exit_code'] != status:
+                    _direct(chk, {'kind': 'plugin command resolution with %d extra ctlplugin(s): a command is looked up on the '
+                                          'Controller, then on the plugins in configuration order, the FIRST one defining it wins'
+                                          % k, 'line': line, 'script': [], 'config': open(cfg).read(),
+                                  'expected': {'printed': msgs, 'exitstatus': status},
+                                  'onecmd': {'printed': b['msgs'], 'exitstatus': b['status'], 'plugins': b.get('plugins')},
+                                  'main': {'printed': m['msgs'], 'exit_code': m['exit_code']}})
     return n
 
 
@@ -970,7 +1024,7 @@ def build_cases(chk):
     gen_more_forms(cs, quick)
     gen_server_states(cs, quick)
     n_exh = len(cs.cases)
-    gen_random(cs, chk, 2500 if quick else 60000)
+    gen_random(cs, chk, 2000 if quick else 60000)
     return cs.cases, n_exh
 
 
